@@ -131,7 +131,8 @@ def run_history(rnd, steps, t):
                     if mutual:
                         w.links.append([dst, src])
                     rec.update(op="link", c=src, d=dst, s=src, t=dst, mutual=int(mutual))
-                    w.objs[so].sync_trait(sa, w.objs[do], da, mutual)
+                    # ("one-way" is spelled False or 0, "mutual" True or 1: the flag is documented as bool or int)
+                    w.objs[so].sync_trait(sa, w.objs[do], da, (mutual if rnd.random() < 0.5 else int(mutual)))
                 else:
                     raise _Skip()
             elif u < 0.3 and w.links:
@@ -142,7 +143,7 @@ def run_history(rnd, steps, t):
                 if mutual:
                     w.links.remove([dst, src])
                 rec.update(op="unlink", c=src, d=dst, s=src, t=dst, mutual=int(mutual))
-                w.objs[so].sync_trait(sa, w.objs[do], da, mutual, remove=True)
+                w.objs[so].sync_trait(sa, w.objs[do], da, (mutual if rnd.random() < 0.5 else int(mutual)), remove=True)
             elif u < 0.33 and "C" not in w.dead and s > 3:
                 rec.update(op="collect", c="C.y")
                 ref = weakref.ref(w.objs["C"])
